@@ -1329,7 +1329,7 @@ class ElementAction(MosFile):
         Classify the MOS type and return an instance of the relevant class
         """
         ea = xml.find('roElementAction')
-        operation = ea.attrib['operation']
+        operation = ea.attrib.get('operation')
 
         # are there any itemID tags in element_target?
         try:
@@ -1338,11 +1338,14 @@ class ElementAction(MosFile):
             target_item = False
 
         # are there any itemID tags in element_source?
-        source_item = len(ea.find('element_source').findall('itemID')) > 0
+        source = ea.find('element_source')
+        if source is None:
+            raise UnknownMosFileType("Unable to determine MOS file type")
+        source_item = len(source.findall('itemID')) > 0
 
         # use the combination of operation, target_item and source_item to
         # determine the subclass
-        subcls = {
+        subclasses = {
             # (operation, target, item): subcls
             ('REPLACE', False, False): EAStoryReplace,
             ('REPLACE', True, False): EAItemReplace,
@@ -1354,7 +1357,11 @@ class ElementAction(MosFile):
             ('SWAP', False, True): EAItemSwap,
             ('MOVE', False, False): EAStoryMove,
             ('MOVE', True, True): EAItemMove,
-        }[(operation, target_item, source_item)]
+        }
+        try:
+            subcls = subclasses[(operation, target_item, source_item)]
+        except KeyError:
+            raise UnknownMosFileType("Unable to determine MOS file type")
         return subcls(xml)
 
     @property
